@@ -43,7 +43,7 @@ Init == /\ doc = St0.doc
 Pull(ev, growth) ==
   /\ Accepts(Cur, ev)
   /\ Len(doc) + growth <= MaxNodes /\ Len(evs) < MaxEvents
-  /\ LET st == Step(Cur, ev) IN doc' = st.doc /\ open' = st.open /\ phase' = st.phase
+  /\ LET st == Consume(Cur, ev) IN doc' = st.doc /\ open' = st.open /\ phase' = st.phase
   /\ evs' = Append(evs, ev)
 
 StartElem(nm) == Len(open) < MaxDepth /\ Pull([k |-> "elem", sp |-> nm.sp, lo |-> nm.lo], 1 + Cardinality(NsOf(doc, Top)))
